@@ -37,8 +37,13 @@ class C03Stream(M.MatStream):
                 if fresh["targets"][-1] != final:
                     out.append({"what": f"history: target {final} differs from {fresh['targets'][-1]} computed from the live proposals alone", "finding": None})
                     break
-        # (3) expired proposals stop counting: after an expiry call at `now`, nothing older than the
-        #     max age may influence the target -> covered by (2) since `live` drops them.
+        # (3) expired proposals stop counting: when the last call was made with no live proposal left
+        #     (all expired), the target in force (get_target_power) must be 0, not a stale value
+        accepted = any(e["t"] == "p" for e in case["events"])
+        if in_domain and last_is_call and accepted and not live and M.wf_sys(s) and obs["stored"] not in (0, None):
+            out.append({"what": f"expiry: no live proposal is left but the target in force is still {obs['stored']}", "finding": None})
+        if in_domain and last_is_call and live and final is not None and obs["stored"] != final:
+            out.append({"what": f"stored: get_target_power() = {obs['stored']} differs from the target {final} just computed", "finding": None})
         return out
 
 
